@@ -47,7 +47,7 @@ CHECKS = [
      'technique': 'Lean 4 theorems (linear_combination with c^2+s^2=1, structural induction over region expressions, floor/sqrt-floor translation lemmas); correspondence run',
      'text': 'PixCoord.rotate is proved an isometry that fixes the centre, composes additively and is inverted by the opposite angle; a rotated circle/ellipse/rectangle/annulus/'
              'point/line/text and any compound of them (induction, any depth) contains a rotated position exactly when the original contained the unrotated one; class, operator and include flags '
-             'are preserved, area unchanged, rotating back restores every parameter (all classes incl. polygons: vertex map). Translation: membership follows a translation for EVERY class '
+             'are preserved, area unchanged for EVERY class (polygons: the shoelace sum is rotation invariant, telescoping over the closed polygon), rotating back restores every parameter (all classes incl. polygons: vertex map). Translation: membership follows a translation for EVERY class '
              '(polygons included) and the bounding box of any region expression moves by exactly the integer shift (incl. the exact sqrt-floor ellipse box). '
              'The mask of ANY region expression is unchanged by a whole-pixel translation and its box moves with it (mask_shift, center/subpixels, polygons via translation invariance of the even-odd rule). NOT a theorem: rotation invariance of the even-odd answer for polygons (partial theorem carries polygonFree); exact-mode masks under translation are checked on the real code.',
      'note': 'Trusted: Lean kernel/Mathlib/3 std axioms; hand model Region.lean (rotate/shift) tied by the correspondence run: rotated parameters within 1e-9*scale of the exact model values, '
